@@ -73,8 +73,10 @@ def extra_c20(pid, tier, seed, workdir, known, write_replay):
     cases = family_cases(specs)
     timeout_s = 20
     results = []
+    # option sets: encase (runtime arrays allowed), and for the struct family also the bytemuck switches
+    jobs = [(fam, n, line, 4) for fam, n, line in cases] + [(fam + "+bytemuck", n, line, o) for fam, n, line in cases if fam == "nested" for o in (2, 3)]
     with concurrent.futures.ThreadPoolExecutor(max_workers=8) as ex:
-        futs = {ex.submit(run_one_case_timed, line, 4, pid, timeout_s): (fam, n, line) for fam, n, line in cases}
+        futs = {ex.submit(run_one_case_timed, line, opt, pid, timeout_s): (fam, n, line) for fam, n, line, opt in jobs}
         for fu in concurrent.futures.as_completed(futs):
             fam, n, line = futs[fu]
             results.append((fam, n, line) + fu.result())
@@ -114,7 +116,7 @@ PROPS["C03"] = dict(
               "WgslVerif.mem_callsOf_evFn", "WgslVerif.mem_usesOf_evFn"],
     streams=lambda tier, seed: (
         [("fixtures",), ("gen", "callgraph", seed, 500), ("gen", "general", seed, 300), ("gen", "textures", seed, 100),
-         ("gen", "entries", seed, 100), ("family", "diamond", 5), ("family", "fanout", 12), ("family", "chainv", 9)] if tier == "quick" else
+         ("gen", "entries", seed, 100), ("family", "diamond", 5), ("family", "fanout", 12), ("family", "chainv", 9), ("pc", 3)] if tier == "quick" else
         [("fixtures",), ("gen", "callgraph", seed, 12000), ("gen", "general", seed, 8000), ("gen", "textures", seed, 2000),
          ("gen", "entries", seed, 2000), ("gen", "scale", seed, 400), ("family", "diamond", 7), ("family", "fanout", 40)]),
     opts=q_opts([0], [0, 48]),
@@ -127,8 +129,8 @@ PROPS["C03"] = dict(
 )
 
 PROPS["C20"] = dict(
-    lean_modules=["WgslVerif.Props.C20"],
-    theorems=["WgslVerif.C20_stage_fn_visits", "WgslVerif.C20_stage_stmt_visits", "WgslVerif.Legacy.chain_blowup",
+    lean_modules=["WgslVerif.Props.C20", "WgslVerif.Lemmas.TypeClosure"],
+    theorems=["WgslVerif.C20_stage_fn_visits", "WgslVerif.C20_stage_stmt_visits", "WgslVerif.typeVisits_bound", "WgslVerif.Legacy.chain_blowup",
               "WgslVerif.nodup_lt_length"],
     streams=lambda tier, seed: (
         [("fixtures",), ("gen", "callgraph", seed, 300), ("gen", "structs", seed, 200), ("gen", "scale", seed, 40)] if tier == "quick" else
@@ -193,10 +195,11 @@ PROPS["C13"] = dict(
     lean_modules=["WgslVerif.Props.C13"],
     theorems=["WgslVerif.C13", "WgslVerif.C13_stages_used", "WgslVerif.C13_stages_unused", "WgslVerif.C03_present", "WgslVerif.C03_entryStages"],
     streams=lambda tier, seed: (
-        [("fixtures",), ("gen", "general", seed, 600), ("gen", "entries", seed, 200), ("gen", "callgraph", seed, 200)] if tier == "quick" else
-        [("fixtures",), ("gen", "general", seed, 15000), ("gen", "entries", seed, 4000), ("gen", "callgraph", seed, 4000)]),
+        [("fixtures",), ("pc", 4), ("gen", "general", seed, 400), ("gen", "entries", seed, 150), ("gen", "callgraph", seed, 150)] if tier == "quick" else
+        [("fixtures",), ("pc", 5), ("gen", "general", seed, 15000), ("gen", "entries", seed, 4000), ("gen", "callgraph", seed, 4000)]),
     opts=q_opts([0], [0, 48]),
-    rule="cases: fixtures + generator profiles general/entries/callgraph (push constants of scalar, vector, matrix, padded struct, array type; used directly, through helper chains, "
+    rule="cases: fixtures + EVERY sequence of entry-point stages up to length 4 (5 thorough) x {unused, used by first / last / middle entry, through helper chains, inside continuing blocks} x 7 push-constant types "
+         "+ generator profiles general/entries/callgraph (push constants of scalar, vector, matrix, padded struct, array type; used directly, through helper chains, "
          "in several stages, or not at all); every case is checked, the non-trivial ones declare a push constant; distinct = distinct WGSL text",
     trusted_base=COMMON_TRUSTED + ["Ty.size is naga's TypeInner::size (WGSL byte size); validated against Ext.WgslLayout by the C05 check"],
     assumptions=["modules with more than one push-constant variable: the first one is described (naga allows one per entry point)"],
